@@ -400,61 +400,64 @@ def pMetadata : Nat → List (String × String) → List Tok → PR (List (Strin
     | h :: _ => if isSym h "#" then perr else .ok (acc, ts)
     | [] => .ok (acc, ts)
 
+/-- `_scope` -/
+def pScope (ts : List Tok) : PR (ScopeKind × Option RawEvent × Option RawEvent × List Tok) :=
+  match ts with
+  | t :: rest =>
+    if isKw t "globally" then pure (ScopeKind.global, (none : Option RawEvent), (none : Option RawEvent), rest)
+    else if isKw t "after" then do
+      let (a, r) ← pAnyEvent rest
+      match r with
+      | u :: r2 =>
+        if isKw u "until" then do
+          let (q, r3) ← pAnyEvent r2
+          pure (ScopeKind.afterUntil, some a, some q, r3)
+        else pure (ScopeKind.after, some a, none, r)
+      | [] => pure (ScopeKind.after, some a, none, r)
+    else if isKw t "until" then do
+      let (q, r) ← pAnyEvent rest
+      pure (ScopeKind.until_, none, some q, r)
+    else perr
+  | [] => perr
+
+/-- `_pattern` (with its optional time bound), given the scope and annotations already read -/
+def pPattern (sk : ScopeKind) (act term : Option RawEvent) (md : List (String × String)) (ts : List Tok) : PR (RawProperty × List Tok) :=
+  match ts with
+  | t :: rest =>
+    if isKw t "some" then do
+      let (b, r) ← pAnyEvent rest
+      let (tb, r) ← pTimeBound r
+      pure (⟨sk, act, term, .existence, b, none, tb, md⟩, r)
+    else if isKw t "no" then do
+      let (b, r) ← pAnyEvent rest
+      let (tb, r) ← pTimeBound r
+      pure (⟨sk, act, term, .absence, b, none, tb, md⟩, r)
+    else do
+      let (e1, r) ← pAnyEvent ts
+      match r with
+      | k :: r2 =>
+        if isKw k "causes" then do
+          let (e2, r3) ← pAnyEvent r2
+          let (tb, r4) ← pTimeBound r3
+          pure (⟨sk, act, term, .response, e2, some e1, tb, md⟩, r4)
+        else if isKw k "forbids" then do
+          let (e2, r3) ← pAnyEvent r2
+          let (tb, r4) ← pTimeBound r3
+          pure (⟨sk, act, term, .prevention, e2, some e1, tb, md⟩, r4)
+        else if isKw k "requires" then do
+          let (e2, r3) ← pAnyEvent r2
+          let (tb, r4) ← pTimeBound r3
+          pure (⟨sk, act, term, .requirement, e1, some e2, tb, md⟩, r4)
+        else perr
+      | [] => perr
+  | [] => perr
+
 /-- `hpl_property: [metadata] _scope ":" _pattern` -/
 def pProperty (ts : List Tok) : PR (RawProperty × List Tok) := do
   let (md, ts) ← pMetadata (ts.length + 1) [] ts
-  -- scope
-  let (sk, act, term, ts) ← (match ts with
-    | t :: rest =>
-      if isKw t "globally" then pure (ScopeKind.global, (none : Option RawEvent), (none : Option RawEvent), rest)
-      else if isKw t "after" then do
-        let (a, r) ← pAnyEvent rest
-        match r with
-        | u :: r2 =>
-          if isKw u "until" then do
-            let (q, r3) ← pAnyEvent r2
-            pure (ScopeKind.afterUntil, some a, some q, r3)
-          else pure (ScopeKind.after, some a, none, r)
-        | [] => pure (ScopeKind.after, some a, none, r)
-      else if isKw t "until" then do
-        let (q, r) ← pAnyEvent rest
-        pure (ScopeKind.until_, none, some q, r)
-      else perr
-    | [] => perr)
+  let (sk, act, term, ts) ← pScope ts
   match ts with
-  | c :: ts =>
-    if !isSym c ":" then perr
-    else
-      -- pattern
-      match ts with
-      | t :: rest =>
-        if isKw t "some" then do
-          let (b, r) ← pAnyEvent rest
-          let (tb, r) ← pTimeBound r
-          pure (⟨sk, act, term, .existence, b, none, tb, md⟩, r)
-        else if isKw t "no" then do
-          let (b, r) ← pAnyEvent rest
-          let (tb, r) ← pTimeBound r
-          pure (⟨sk, act, term, .absence, b, none, tb, md⟩, r)
-        else do
-          let (e1, r) ← pAnyEvent ts
-          match r with
-          | k :: r2 =>
-            if isKw k "causes" then do
-              let (e2, r3) ← pAnyEvent r2
-              let (tb, r4) ← pTimeBound r3
-              pure (⟨sk, act, term, .response, e2, some e1, tb, md⟩, r4)
-            else if isKw k "forbids" then do
-              let (e2, r3) ← pAnyEvent r2
-              let (tb, r4) ← pTimeBound r3
-              pure (⟨sk, act, term, .prevention, e2, some e1, tb, md⟩, r4)
-            else if isKw k "requires" then do
-              let (e2, r3) ← pAnyEvent r2
-              let (tb, r4) ← pTimeBound r3
-              pure (⟨sk, act, term, .requirement, e1, some e2, tb, md⟩, r4)
-            else perr
-          | [] => perr
-      | [] => perr
+  | c :: ts => if !isSym c ":" then perr else pPattern sk act term md ts
   | [] => perr
 
 def parsePropertyToks (ts : List Tok) : Except Unit RawProperty := do
